@@ -23,8 +23,10 @@ import (
 //                           indices - hence the generated programs - of the earlier blocks stay what they were)
 //   [.., ..+nEsc)           escape shapes (c02_escape.go): every turn creates closures over its own
 //                           parameters / locals, they escape the turn and are called later (appended)
-//   the rest (nDepth)       depth-history cases (c02_depth.go): the stack goes deeper than it has ever
-//                           been in the runtime while loop frames are live (appended last)
+//   [.., ..+nDepth)         depth-history cases (c02_depth.go): the stack goes deeper than it has ever
+//                           been in the runtime while loop frames are live (appended)
+//   the rest (nCallee)      callee-identity cases (c02_callee.go): the function value a turn calls changes
+//                           from turn to turn (closures made afresh every turn, tables of lambdas) (appended last)
 
 func init() {
 	fw.Register(&fw.Prop{
@@ -34,6 +36,7 @@ func init() {
 			"(a') exit shapes: every tail-position construct is also exercised along each of its internal exits (dotimes with a zero / negative / turn-dependent count, with and without body; if / cond branch and clause chosen by the turn number; let, let*, flet, labels, macrolet with zero, one, many bindings; progn / or / thread-first / thread-last with one..many forms; the call form itself chosen by the turn), alone x 11 call forms x 3 recursion kinds and in sampled chains with the other wrappers, iteration counts {1,2,24,120,1200(,24000)}: the sampled entry heights must repeat with the period of the exit selection (12 turns) and the maximum height must be the same for 24 and for 120, 1200 turns; " +
 			"(a'') escape shapes: every turn of the loop creates one or two closures over the loop's own parameters and locals of the turn (directly, through a nested lambda, a let / let* / flet / labels around the call, expr, an inner parameter, an &optional parameter, a closure that set!s what it captured; a fourth formal of kind &optional / &rest / &key), with set! of a captured parameter before / after the closure is created, and makes them escape (cons, append! to a vector, assoc! into a sorted-map, a global, a chain of closures, handed to the next turn which calls it); all (escape x capture x mutation) with the other dimensions, wrappers, call forms, recursion kinds and definers rotated and sampled; the closures are called after the loop (or in the next turn): the list of their values must be equal with elimination on and off and equal to the list predicted by construction (each closure sees the variables of the turn that created it); stack oracles as in (a); " +
 			"(a3) depth-history cases (c02_depth.go): the stack is driven deeper than it has ever been in the runtime WHILE loop frames are live, and the loops go on: tail loops (wrappers, 11 call forms, recursion kinds, definers as above) whose turns make a non-tail recursive excursion (13 kinds: plain, let initialiser, map / foldl callbacks, handler-bind, ignore-errors, funcall, apply, 2-cycle, non-final body form, labels-local, dotimes body, with a tail loop at the bottom) in one of 5 positions of the turn (non-final body form before / after the call made for effect, argument of the tail call, let initialiser around it, exit test), of a depth that grows from turn to turn through 2^k-1, 2^k, 2^k+1 frames (k = 4..11, thorough 13) and values in between, with calls made for effect from non-final body forms to functions of the cycle (8 call forms, behind a tail-position wrapper or not) on chosen turns, started at base depths 0..250; walks of 2- and 3-ary trees (spines, zigzags, combs whose teeth grow along the tail spine, random) that reach all children but one by non-tail calls (non-final body forms, wrapped, argument, let initialiser, map callback) and the last by a tail call, self and 2-cycle; Ackermann's function m = 1..3; all (excursion kind x position x recursion kind) plus sampled combinations: value, ordered effect trace and number of activations are fixed by construction, entry heights must not grow, the tail iterations counted on the live frames and the logical height must advance every turn, pushes = pops, only terminal unblocked frames collapse, the elimination-off run and a second run in the same runtime give the same transcript; " +
+			"(a4) callee-identity cases (c02_callee.go): the function VALUE a turn tail-calls changes from turn to turn instead of being a named function or one lambda bound once: a closure made afresh every turn (by a maker function closing over the turn's data or taking it as arguments, an anonymous maker handed along, labels / flet in the maker, a curried maker, curry-function / compose / flip around a fresh closure), one of k different lambdas taken from a list / vector / sorted-map built once or rebuilt every turn, called through funcall, apply (leading arguments or all in the list), unpack, a funcall step of thread-first, an apply step of thread-last, one of these chosen by the turn, or as the head of the call form, started by funcall / apply / inside a named function / a let-bound value / a head call, behind 0..2 of the wrappers of (a), (a'); all (source x via) plus sampled combinations, iteration counts {1,2,24,120,1200(,12000)}: value, one entry per turn, entry i not higher than entry i-12 from the third period on, the same maximum height for 24, 120 and 1200 turns, only terminal unblocked frames collapse, pushes = pops, elimination-off transcript equal; heights are judged for calls made by funcall / apply / unpack / threading steps of functions made by lambda, labels, flet, curry-function, compose (documented as equivalent to a lambda whose last form is the call) and only observed for a callee computed in the head of the call form and for flip; " +
 			"(b) loops routed through handler-bind / ignore-errors / load-string / a macro body must keep their frames and handlers; (c) generated programs are run under elimination on, off (dormant debugger) and profiler and their transcripts compared. distinct_nontrivial counts distinct (shape, recursion kind, definer, iteration count) and program-feature signatures whose runs took >= 5 steps",
 		Assumptions: []string{
 			"a dormant Debugger (IsEnabled()==false) is the configuration that disables elimination, as the property states",
@@ -49,7 +52,7 @@ func init() {
 	})
 }
 
-type c02Lay struct{ nShapes, nBlocked, nTwin, nExits, nEsc, nDepth, total int }
+type c02Lay struct{ nShapes, nBlocked, nTwin, nExits, nEsc, nDepth, nCallee, total int }
 
 func c02Layout(tier string) c02Lay {
 	l := c02Lay{}
@@ -61,7 +64,8 @@ func c02Layout(tier string) c02Lay {
 	l.nExits = c02ExitExhaustive() + pick(tier, 250, 5000)
 	l.nEsc = c02EscExhaustive() + pick(tier, 200, 5000)
 	l.nDepth = c02DepthExhaustive() + pick(tier, 175, 6000)
-	l.total = l.nShapes + l.nBlocked + l.nTwin + l.nExits + l.nEsc + l.nDepth
+	l.nCallee = c02CalExhaustive() + pick(tier, 112, 2500)
+	l.total = l.nShapes + l.nBlocked + l.nTwin + l.nExits + l.nEsc + l.nDepth + l.nCallee
 	return l
 }
 
@@ -545,8 +549,10 @@ func c02Run(w *fw.W, idx int) {
 		c02RunShapeS(w, c02ExitShapeFor(w, idx, idx-(l.nShapes+l.nBlocked+l.nTwin), w.Tier))
 	case idx < l.nShapes+l.nBlocked+l.nTwin+l.nExits+l.nEsc:
 		c02RunShapeS(w, c02EscShapeFor(w, idx, idx-(l.nShapes+l.nBlocked+l.nTwin+l.nExits), w.Tier))
-	default:
+	case idx < l.nShapes+l.nBlocked+l.nTwin+l.nExits+l.nEsc+l.nDepth:
 		c02RunDepth(w, c02DepthCaseFor(w, idx, idx-(l.nShapes+l.nBlocked+l.nTwin+l.nExits+l.nEsc), w.Tier))
+	default:
+		c02RunCallee(w, c02CalCaseFor(w, idx, idx-(l.nShapes+l.nBlocked+l.nTwin+l.nExits+l.nEsc+l.nDepth), w.Tier))
 	}
 }
 
